@@ -220,6 +220,23 @@ CLAIMED = {
         design_ref="DESIGN.md §6 C17",
         note="Trusted: Coq kernel + vm_compute; Spec/Xml.v as the definition of well-formedness; Python's expat and json as oracles for the search.",
         technique="Coq model of formatters + well-formedness/escaping/precision theorems + byte-exact model/impl correspondence + output oracles"),
+    "C16": dict(
+        text="Coq model of the readers (Model/Parse.v): str::trim / split / splitn / lines, i32 and f32 FromStr (decimal to "
+             "nearest f32, overflow to infinity), the record readers of every component kind, demands, metadata, factors, "
+             "and the components / factors file readers, in which every indexing and slicing operation of the code is an "
+             "explicit bound test whose failure is the outcome PPanic. Theorems: C16_components_reader_never_panics and "
+             "C16_factors_reader_never_panics (for EVERY text the outcome is a result, a typed error or a non-finite value, "
+             "never PPanic), C16_line_readers_never_panic, C16_meta_reader_guarded (the byte-5 slice is safe exactly under "
+             "the callers' prefix test; C16_meta_reader_unguarded shows the test is needed). The tie to the code: model "
+             "outcome (exact value, error kind) against FromStr of each record type on valid, corrupted and token-soup "
+             "lines, and against the file readers on valid / corrupted / soup files; the panic sites of src/ are enumerated "
+             "on every run and compared with the reviewed list panic_sites.json. PARTIAL: the stages after reading "
+             "(normalise, strip, balance, DHW fraction, formatters) are total functions in the model, so their panic-freedom "
+             "and the process-level behaviour of the binary (exit status 0/1/64/65/73/74, message on stderr, no signal, no "
+             "hang under a wall-clock limit) are decided by the in-process and out-of-process fuzz only.",
+        design_ref="DESIGN.md §6 C16",
+        note="Trusted: Coq kernel + vm_compute; the panic-site scanner and its reviewed list; catch_unwind in the runner.",
+        technique="Coq model of the readers with explicit panic outcome + no-panic theorems + exact model/impl correspondence + panic-site enumeration + fuzz of library and binary"),
 }
 
 PENDING_REASON = "not claimed yet in this round: model/theorems for this property are still being built (see DESIGN.md §10 order of work)"
